@@ -261,7 +261,7 @@ class AbstractDistribution(eqx.Module):
         else:
             leading_cond_shape = ()
         key_shape = sample_shape + leading_cond_shape
-        key_size = max(1, prod(key_shape))  # Still need 1 key for scalar sample
+        key_size = prod(key_shape)  # Note prod(()) == 1, so a scalar sample gets one key
         return jnp.reshape(jr.split(key, key_size), (*key_shape, 2))
 
 
